@@ -21,6 +21,30 @@ type consumer interface {
 	readInto(r io.Reader, buf *bytes.Buffer) error
 }
 
+// readError locates a read failure. Nested readers do not wrap an
+// error which is already located: with one more prefix at each level
+// of nesting, the message of a failure at the bottom of deeply nested
+// data would grow quadratically with the depth.
+type readError struct {
+	context string
+	err     error
+}
+
+func (e *readError) Error() string {
+	return e.context + ": " + e.err.Error()
+}
+
+// locate adds the context to err unless err is already located.
+func locate(err error, format string, args ...interface{}) error {
+	if _, ok := err.(*readError); ok {
+		return err
+	}
+	return &readError{
+		context: fmt.Sprintf(format, args...),
+		err:     err,
+	}
+}
+
 // readInto appends to buf the bytes read by t.
 func readInto(t TypeReader, r io.Reader, buf *bytes.Buffer) error {
 	if c, ok := t.(consumer); ok {
@@ -104,7 +128,7 @@ func (v valueReader) readInto(r io.Reader, buf *bytes.Buffer) error {
 		return fmt.Errorf("write signature: %s", err)
 	}
 	if err = readInto(reader, r, buf); err != nil {
-		return fmt.Errorf("read value: %s", err)
+		return locate(err, "read value")
 	}
 	return nil
 }
@@ -134,8 +158,7 @@ func (v varReader) readInto(r io.Reader, buf *bytes.Buffer) error {
 		before := buf.Len()
 		err := readInto(v.reader, r, buf)
 		if err != nil {
-			return fmt.Errorf("read %d/%d: %s",
-				i+1, size, err)
+			return locate(err, "read %d/%d", i+1, size)
 		}
 		if buf.Len() == before {
 			// zero width element (void or empty tuple): the
@@ -161,8 +184,7 @@ func (v tupleReader) readInto(r io.Reader, buf *bytes.Buffer) error {
 	for _, member := range v {
 		err := readInto(member.reader, r, buf)
 		if err != nil {
-			return fmt.Errorf("read %s: %s",
-				member.name, err)
+			return locate(err, "read %s", member.name)
 		}
 	}
 	return nil
